@@ -91,7 +91,7 @@ def snap_scale(s: float, tol: float = 1e-6) -> float:
         return maybe_int(s, tol)
 
     # Check of s is 0
-    if abs(s) < tol:
+    if s == 0 or abs(s) < tol:
         return s
 
     # Check for simple fractions
